@@ -238,6 +238,10 @@ def run(prog: Program, res: Result) -> None:  # noqa: PLR0912, PLR0915
 
     _mapping_protocol_rule(prog, res)
     _cast_belief_rule(prog, res)
+    res.rule("C02.R7", "no function of liquid2 reads a local variable on a path that has not bound it: UnboundLocalError never escapes parse / render / analysis / extraction (definite-assignment dataflow over every function)")
+    from checks.shared import check_definite_assignment
+
+    check_definite_assignment(prog, res, "C02.R7")
     # ------------------------------------------------------------------ R3 boundary converters
     res.rule("C02.R3", "Filter.evaluate[_async] wraps the dynamic filter call in a handler converting (TypeError, ValueError, ArithmeticError, LookupError, AttributeError, OSError) to LiquidTypeError; render_with_context converts stray LiquidInterrupts")
     flt = prog.mod("liquid2/builtin/expressions.py").classes.get("Filter")
